@@ -356,6 +356,8 @@ func (e *Engine) callResultTypesAt(c *ssa.Call, idx int, at *ssa.BasicBlock, see
 				if call, ok := ev.(*ssa.Call); ok {
 					if sc := call.Call.StaticCallee(); sc != nil && sc.Pkg != nil && (sc.Pkg.Pkg.Path() == "errors" || sc.Pkg.Pkg.Path() == "fmt") {
 						definitelyErr = true
+					} else if e.alwaysErr(sc, 0) {
+						definitelyErr = true
 					}
 				}
 			}
@@ -464,6 +466,7 @@ func (e *Engine) producers(v ssa.Value, seen map[ssa.Value]bool, depth int) []ss
 	fieldOf := func(sv ssa.Value, field int) ([]ssa.Value, bool) {
 		var res []ssa.Value
 		var fromLit func(x ssa.Value) bool
+		busy := map[*ssa.Alloc]bool{}
 		fromLit = func(x ssa.Value) bool {
 			switch y := x.(type) {
 			case *ssa.Const:
@@ -474,6 +477,10 @@ func (e *Engine) producers(v ssa.Value, seen map[ssa.Value]bool, depth int) []ss
 				if !ok || y.Op != token.MUL {
 					return false
 				}
+				if busy[al] {
+					return true // the local assigned from itself adds nothing
+				}
+				busy[al] = true
 				n := 0
 				for _, ref := range *al.Referrers() {
 					switch u := ref.(type) {
@@ -648,4 +655,47 @@ func fromLitOrCall(e *Engine, sv ssa.Value, field int, seen map[ssa.Value]bool, 
 func (e *Engine) escapedFn(fn *ssa.Function) bool {
 	e.callSites(fn)
 	return e.escaped[fn]
+}
+
+// alwaysErr: fn is a function of the module with one result, an error, that is never nil: every return hands
+// back a boxed concrete value, a new error of errors/fmt, or the result of another such function.
+func (e *Engine) alwaysErr(fn *ssa.Function, depth int) bool {
+	if fn == nil || depth > 4 || len(fn.Blocks) == 0 || !inModule(fn) || fn.Signature.Results().Len() != 1 || !isErrorType(fn.Signature.Results().At(0).Type()) {
+		return false
+	}
+	n := 0
+	for _, b := range fn.Blocks {
+		if len(b.Instrs) == 0 || b == fn.Recover {
+			continue
+		}
+		ret, ok := b.Instrs[len(b.Instrs)-1].(*ssa.Return)
+		if !ok || len(ret.Results) != 1 {
+			continue
+		}
+		n++
+		switch ev := ret.Results[0].(type) {
+		case *ssa.MakeInterface:
+			if _, isPtr := ev.X.Type().Underlying().(*types.Pointer); isPtr {
+				if _, isAlloc := ev.X.(*ssa.Alloc); !isAlloc {
+					return false
+				}
+			}
+		case *ssa.Call:
+			sc := ev.Call.StaticCallee()
+			if sc == nil {
+				return false
+			}
+			if sc.Pkg != nil && (sc.Pkg.Pkg.Path() == "errors" || sc.Pkg.Pkg.Path() == "fmt") {
+				continue
+			}
+			if !e.alwaysErr(sc, depth+1) {
+				return false
+			}
+		default:
+			if !e.nonNilFact(ev, b) {
+				return false
+			}
+		}
+	}
+	return n > 0
 }
